@@ -253,7 +253,7 @@ CLAIM = {
             "range test; (FRAME) write-set inclusion for ScanFilterPushdown (only appends to scan_filters); (FILES) provenance of the "
             "skip/step_by arguments in every multi-file scan. These make pushdown and file distribution conservative by construction for "
             "all inputs; value conversions of statistics are not decided. (COLIDX) the Parquet struct reader matches pushed-down filters to "
-            "column readers by column index, never by the position in the projection list.",
+            "column readers by column index, never by the position in the projection list. The range test of the pruner must also be evaluated in the order of the column's logical type (the constant's type), not of the signed physical statistics type.",
     "note": "trusted: rustc MIR; comparison orientation is read from the operands' field provenance (stats.min / stats.max / filter constant)",
     "technique": "static analysis: MIR edge-dominance + frame (write-set) + provenance rules (rustc_private driver)",
 }
